@@ -221,6 +221,9 @@ type c15Scenario struct {
 	Reg       [][]interface{}
 	regMu     sync.Mutex
 	wrapped   bool
+	facade    bool
+	facadePub *script.Publisher
+	facadeObj *cqrs.Facade
 }
 
 var errC15Handler = errors.New("scripted handler error")
@@ -402,6 +405,24 @@ type c15RawMsg struct {
 // throughBus sends v through a REAL bus of the scenario's kind and marshaler and returns what
 // reached the publisher.
 func (s *c15Scenario) throughBus(v any) (*message.Message, error) {
+	if s.facadeObj != nil {
+		// the Facade's own bus and publisher
+		before := len(s.facadePub.Snapshot())
+		var err error
+		if s.kind == 0 {
+			err = s.facadeObj.CommandBus().Send(context.Background(), v)
+		} else {
+			err = s.facadeObj.EventBus().Publish(context.Background(), v)
+		}
+		if err != nil {
+			return nil, err
+		}
+		calls := s.facadePub.Snapshot()
+		if len(calls) != before+1 || len(calls[before].Msgs) != 1 {
+			return nil, fmt.Errorf("facade bus published %d calls", len(calls)-before)
+		}
+		return calls[before].Msgs[0], nil
+	}
 	pub := &script.Publisher{}
 	m := c15Marshaler(s.mk, nil)
 	var err error
@@ -576,7 +597,24 @@ func (s *c15Scenario) run(sIdx int) ([]*c15Delivery, error) {
 			hs[i] = c15CmdHandler(ty, fmt.Sprintf("h%d", i), hf(i))
 			s.hids[hs[i]] = i
 		}
-		if s.depr {
+		if s.depr && s.facade {
+			// the deprecated Facade (cqrs.go): NewCommandBus + NewCommandProcessor + AddHandlersToRouter
+			s.facadePub = &script.Publisher{}
+			f, err := cqrs.NewFacade(cqrs.FacadeConfig{
+				GenerateCommandsTopic: func(name string) string { s.reg("topic", s.in.ID(name), -1); return "cmd." + name },
+				CommandHandlers:       func(cb *cqrs.CommandBus, eb *cqrs.EventBus) []cqrs.CommandHandler { return hs },
+				CommandsPublisher:     s.facadePub,
+				CommandsSubscriberConstructor: func(handlerName string) (message.Subscriber, error) {
+					i, _ := strconv.Atoi(handlerName[1:])
+					s.reg("sub", -1, i)
+					return newSub(i), nil
+				},
+				Router: router, CommandEventMarshaler: m, Logger: watermill.NopLogger{}})
+			if err != nil {
+				return nil, fmt.Errorf("NewFacade: %w", err)
+			}
+			s.facadeObj = f
+		} else if s.depr {
 			cp, err := cqrs.NewCommandProcessor(hs, func(name string) string { s.reg("topic", s.in.ID(name), -1); return "cmd." + name },
 				func(handlerName string) (message.Subscriber, error) {
 					i, _ := strconv.Atoi(handlerName[1:])
@@ -634,7 +672,23 @@ func (s *c15Scenario) run(sIdx int) ([]*c15Delivery, error) {
 			hs[i] = c15EvtHandler(ty, fmt.Sprintf("h%d", i), hf(i))
 			s.hids[hs[i]] = i
 		}
-		if s.depr {
+		if s.depr && s.facade {
+			s.facadePub = &script.Publisher{}
+			f, err := cqrs.NewFacade(cqrs.FacadeConfig{
+				GenerateEventsTopic: func(name string) string { s.reg("topic", s.in.ID(name), -1); return "evt." + name },
+				EventHandlers:       func(cb *cqrs.CommandBus, eb *cqrs.EventBus) []cqrs.EventHandler { return hs },
+				EventsPublisher:     s.facadePub,
+				EventsSubscriberConstructor: func(handlerName string) (message.Subscriber, error) {
+					i, _ := strconv.Atoi(handlerName[1:])
+					s.reg("sub", -1, i)
+					return newSub(i), nil
+				},
+				Router: router, CommandEventMarshaler: m, Logger: watermill.NopLogger{}})
+			if err != nil {
+				return nil, fmt.Errorf("NewFacade: %w", err)
+			}
+			s.facadeObj = f
+		} else if s.depr {
 			ep, err := cqrs.NewEventProcessor(hs, func(name string) string { s.reg("topic", s.in.ID(name), -1); return "evt." + name },
 				func(handlerName string) (message.Subscriber, error) {
 					i, _ := strconv.Atoi(handlerName[1:])
@@ -765,6 +819,9 @@ func (s *c15Scenario) run(sIdx int) ([]*c15Delivery, error) {
 				Wrapped: s.wrapped, MTrace: [][]interface{}{}}
 			if s.depr {
 				d.Ctor = "deprecated"
+				if s.facade {
+					d.Ctor = "facade"
+				}
 			}
 			failAt := -1
 			if s.rng.Intn(2) == 0 {
@@ -1389,6 +1446,7 @@ func cmdC15(args []string) error {
 	for i := 0; i < *nScen; i++ {
 		s := &c15Scenario{in: in, rng: rng}
 		s.wrapped = rng.Intn(10) < 7
+		s.facade = rng.Intn(2) == 0 // only used by deprecated command / event scenarios
 		s.mk = []int{0, 0, 1, 2, 3, 3, 4, 5, 6, 7}[rng.Intn(10)]
 		s.kind = []int{0, 1, 2, 2}[rng.Intn(4)]
 		s.depr = s.kind != 2 && rng.Intn(5) == 0
